@@ -1,6 +1,6 @@
 (* Entry.v — named entry points: sx case -> sx result.  Used by the extracted
    driver and by the in-kernel replays (vm_compute). *)
-From WD Require Import Base LetterId Wire Protocol Conn Color Matcher MatcherParse Show Session Decode Render Extract.
+From WD Require Import Base LetterId Wire Protocol Conn Color Matcher MatcherParse Show Session Decode Render Extract Args.
 
 Definition e_n2l (a : sx) : sx :=
   match a with
@@ -249,10 +249,43 @@ Definition e_extract (a : sx) : sx :=
   | _ => sx_err
   end.
 
+(* argv -> what parse_args makes of it *)
+Definition sx_mode (m : mode) : sx :=
+  SS (match m with MRun => s2l "run" | MGdbRunner => s2l "gdb-runner" | MLoad => s2l "load-from-file" | MPipe => s2l "pipe" end).
+Definition e_argv (a : sx) : sx :=
+  match a with
+  | SL ws =>
+      match get_list get_s ws with
+      | Some argv =>
+          sx_res (fun r => match r with
+                           | PAUsage => SL [SS (s2l "usage")]
+                           | PABadMatcher => SL [SS (s2l "bad-matcher")]
+                           | PASplitError => SL [SS (s2l "split-error")]
+                           | PAOk m lp f b unp ours fwd =>
+                               SL [SS (s2l "ok"); sx_mode m; SS lp; SS (mshow false f); SS (mshow false b); sx_bool unp;
+                                   SL (map SS ours); SL (map SS fwd);
+                                   SL (map SS (match m with MGdbRunner => gdb_argv ours fwd | _ => [] end))]
+                           end) (parse_args argv)
+      | None => sx_err
+      end
+  | _ => sx_err
+  end.
+Definition e_splitcmd (a : sx) : sx :=
+  match a with
+  | SL ws =>
+      match get_list get_s ws with
+      | Some argv => sx_res (fun r => let '(p, id, q) := r in SL [SL (map SS p); SS id; SL (map SS q)]) (split_command argv)
+      | None => sx_err
+      end
+  | _ => sx_err
+  end.
+
 Definition entries (P : pdb) : list (str * (sx -> sx)) :=
   [ (s2l "n2l", e_n2l);
     (s2l "l2n", e_l2n);
     (s2l "mparse", e_mparse);
+    (s2l "argv", e_argv);
+    (s2l "splitcmd", e_splitcmd);
     (s2l "extract", e_extract);
     (s2l "uiloop", e_uiloop);
     (s2l "decode", e_decode);
